@@ -19,10 +19,16 @@ EXTENDS Naturals
 
 \* what can go wrong with one sync attempt besides a crash
 Faults == {"none", "http_error", "trunc", "corrupt"}
-\* attempt sequences exercised on the real syncer (spec -> code): a first attempt that crashes
+\* attempt sequences exercised on the real syncer (spec -> code): a first attempt that is interrupted
 \* (at every crash point) or meets a fault, a next attempt that is undisturbed or meets a fault
-\* itself; a final undisturbed attempt always follows and must complete (Recover)
-Plans == [first : (Faults \ {"none"}) \cup {"crash"}, next : Faults]
+\* itself; a final undisturbed attempt always follows and must complete (Recover).
+\* obj = "fresh": every attempt is a new process / a new syncer object, an interruption is a power cut
+\* (exit handlers never run).   obj = "same": all attempts are made by ONE syncer object in one
+\* process, an interruption is an in-process one (signal, KeyboardInterrupt: not an OSError the
+\* syncer handles), the exit handlers run once, after the last attempt.  The syncer object carries no
+\* protocol state, so TarSync_MC!NextRound (abandon the round anywhere, continue from the on-disk
+\* state without cleanup) models both; the trace check runs both.
+Plans == [first : (Faults \ {"none"}) \cup {"crash"}, next : Faults, obj : {"fresh", "same"}]
 
 NoTree(t) == t \in {"absent", "empty"}
 SameTree(a, b) == a = b \/ (NoTree(a) /\ NoTree(b))
